@@ -42,6 +42,19 @@ def run(ctx):
     big = [("getscript", ("n",), b"{%d}\r\n" % len(body) + body + b"\r\nOK\r\n"),
            ("listscripts", (), b"".join(b'"script%03d"\r\n' % i for i in range(900)) + b'"x" ACTIVE\r\nOK "done"\r\n'),
            ("putscript", ("n", "keep;"), b'NO (QUOTA/MAXSIZE) {%d}\r\n' % 6000 + b"e" * 6000 + b"\r\n")]
+    # replies whose length is an exact multiple of the client's read size (4096): the last read returns a full block and
+    # nothing follows — a full block says nothing about more data pending
+    def padded(total):
+        head = b"".join(b'"script%03d"\r\n' % i for i in range(40))
+        tail = b'OK "done"\r\n'
+        fill = total - len(head) - len(tail) - 4          # one more name: quote + fill + quote + CRLF
+        return head + b'"' + b"n" * fill + b'"\r\n' + tail
+    for total in (4096, 8192, 12288):
+        rep = padded(total)
+        assert len(rep) == total
+        big.append(("listscripts", (), rep))
+    pbody = b"x" * (4096 - len(b"{4000}\r\n") - 2 - len(b"OK\r\n"))
+    big.append(("getscript", ("n",), b"{%d}\r\n" % len(pbody) + pbody + b"\r\nOK\r\n"))
     for op, args, reply in big:
         base, breqs = ms_cases.run_case(op, args, reply, [])
         n = len(reply)
